@@ -267,6 +267,8 @@ static void case_comp(const std::vector<Tok> &t, Out &o)
 
 int main(int argc, char **argv)
 {
+  // flush every observation line: when a sanitizer aborts the run, the last line printed is complete
+  std::cout << std::unitbuf;
   return verif::run_cases(argc, argv, [](const std::vector<Tok> &t, Out &o) {
     if (t.empty()) { o.tag("BADCASE"); return; }
     if (t[0].is_tag("OPS")) case_ops(t, o);
